@@ -114,17 +114,22 @@ class Explorer:
                 self.solver.push()
                 self.solver.add(cond if d else z3.Not(cond))
                 self.depth += 1
-                if not ent[1]:
-                    ent[1] = True
-                    if not self._check_inc():
-                        self.trace.append((cond, d))
-                        raise Abort()
+                ent[1] = True                 # (a flipped entry: its feasibility was established when the decision was first met)
         else:
             assert self.depth == i, (self.depth, i)
+            # the alternative is checked right away (one more incremental query) so that an infeasible alternative never costs
+            # a re-execution of the whole body up to this point
+            self.solver.push()
+            self.solver.add(z3.Not(cond))
+            alt = self._check_inc()
+            self.solver.pop()
             self.solver.push()
             self.solver.add(cond)
             self.depth += 1
-            if self._check_inc():
+            if not alt:
+                d = True                      # the path so far is feasible and not(cond) is not: cond holds on all of it
+                ent = [True, True, False]
+            elif self._check_inc():
                 d = True
                 ent = [True, True, True]
             else:
